@@ -126,3 +126,50 @@ Definition p_h_shrink_before_3576481 (win sz tmp : nat) : prog :=
 Lemma history_shrink_pops_empty_refuted :
   check_shapes (p_h_shrink_before_3576481 30 2 2) = Some (e_h_set, "pop_back"%string).
 Proof. vm_compute. reflexivity. Qed.
+
+(* ---- a cache slip of the kind of seeded change C14-r5 (not a defect of /repo; kept as the specification of what the
+        sequence model must see): exponentialAverage decides whether to rebuild em_weights_ by EXAMINING the size of
+        wm_weights_ (the weighted-average cache).  Only the windowed branch of x_step differs: [probe] of x_avg_tail
+        is the other family's cache for the exponential family. *)
+Definition x_step_wrong_probe (el ec : nat) (s : xstate) (o : xop) : prog * xstate * list nat :=
+  match o with
+  | XExtract full pr n wn pw ln tr tc =>
+      if (2 <=? xstat s) && negb full then ([], s, [0; el + ec])
+      else
+        let cur := ext_stat_rows (xstat s) el ec pr in
+        let ps := p_ext_stat (xstat s) el ec pr n wn pw ln tr tc in
+        match xavg s with
+        | 0 => (ps, s, [1; cur])
+        | avg =>
+            let '(pa, h') := h_step (el + ec) (xh s) (HAdd cur) in
+            let els' := firstn (hsz h') (cur :: xels s) in
+            let probe := match avg with 1 => xsm s | _ => xwm s end in
+            let '(pt, c') := x_avg_tail avg el ec (hsz h') probe (x_cache avg s) in
+            (ps ++ relabel e_ext pa ++ p_h_get e_ext (el + ec) (hsz h') els' ++ pt, x_set_cache avg s h' els' c', [1; el + ec])
+        end
+  | _ => x_step el ec s o
+  end.
+Fixpoint x_run_wrong_probe (el ec : nat) (s : xstate) (ops : list xop) : prog :=
+  match ops with
+  | [] => []
+  | o :: r => let '(p, s', _) := x_step_wrong_probe el ec s o in p ++ x_run_wrong_probe el ec s' r
+  end.
+Definition x2 (n : nat) := XExtract false 2 n n 0 0 0 0.
+(* (a) emean x5, window 2, one wmean, emean: a 2-column history times the 5 weights cached before *)
+Definition ops_longer_cache := [XMethod 0 3; x2 2; x2 2; x2 2; x2 2; x2 2; XWindow 2; XMethod 0 2; x2 2; XMethod 0 3; x2 2].
+(* (b) emean x2, wmean x3, emean: a 5-column history times 2 weights (the over-read) *)
+Definition ops_shorter_cache := [XMethod 0 3; x2 3; x2 3; XMethod 0 2; x2 3; x2 3; x2 3; XMethod 0 3; x2 3].
+Lemma extseq_wrong_probe_refuted :
+  run (x_run_wrong_probe 2 0 x_init ops_longer_cache) = Fails e_ext "topRows*exp(w)" /\
+  run (x_run_wrong_probe 2 0 x_init ops_shorter_cache) = Fails e_ext "topRows*exp(w)" /\
+  (* circular components only: the mismatch is in directional_mean *)
+  run (x_run_wrong_probe 0 2 x_init ops_shorter_cache) = Fails e_ext "directional_mean:exp(a)*w".
+Proof. repeat split; vm_compute; reflexivity. Qed.
+(* a single windowed family never shows it (the other cache stays empty, the own one is rebuilt at every call) *)
+Lemma extseq_wrong_probe_single_family_safe :
+  run (x_run_wrong_probe 2 0 x_init [XMethod 1 3; x2 2; x2 2; x2 2; XWindow 2; x2 2; XClear; x2 2; XWindow 9; x2 2; x2 2]) = Safe.
+Proof. vm_compute. reflexivity. Qed.
+Lemma extseq_now_safe :
+  run (case_extseq 2 0 ops_longer_cache) = Safe /\ run (case_extseq 2 0 ops_shorter_cache) = Safe /\
+  run (case_extseq 0 2 ops_shorter_cache) = Safe.
+Proof. repeat split; vm_compute; reflexivity. Qed.
